@@ -613,8 +613,8 @@ struct Node {
     now: i64,
 }
 
-const RAW_PROTOS: [IpProtocol; 6] =
-    [IpProtocol::Udp, IpProtocol::Icmpv6, IpProtocol::Tcp, IpProtocol::HopByHop, IpProtocol::Ipv6Route, IpProtocol::Ipv6Opts];
+const RAW_PROTOS: [IpProtocol; 7] =
+    [IpProtocol::Udp, IpProtocol::Icmpv6, IpProtocol::Tcp, IpProtocol::HopByHop, IpProtocol::Ipv6Route, IpProtocol::Ipv6Opts, IpProtocol::Ipv6Frag];
 
 fn mk_node(medium: Medium, ll: Option<Ieee802154Address>, ips: &[Ipv6Address], gw: Option<Ipv6Address>, mtu: usize, seed: u64) -> Node {
     let mut dev = QDev::new(medium, mtu);
@@ -759,9 +759,20 @@ fn inject_case(c: &Case, out: &mut dyn Write) -> Vec<String> {
             Err(()) => {
                 writeln!(out, "r PANIC").unwrap();
                 fails.push(format!("poll-panics-on-frame :: case {} op#{} frame {}", c.id, k, t[2]));
-                break;
+                return fails;
             }
         }
+    }
+    // ... and whatever was injected, the interface still takes a valid datagram in afterwards
+    b.now += 10;
+    b.dev.rx.push_back(inject_probe_frame(ll));
+    match b.poll() {
+        Ok(()) => {
+            if !b.take_raw().iter().any(|d| d.ends_with(b"still there?")) {
+                fails.push(format!("interface-deaf-after-frames :: case {}: a valid UDP datagram injected after the frames was not delivered", c.id));
+            }
+        }
+        Err(()) => fails.push(format!("poll-panics-on-frame :: case {} on the trailing valid datagram", c.id)),
     }
     fails
 }
@@ -1459,7 +1470,10 @@ fn gen_recv_op1(rng: &mut Rng, cfg: &E2eCfg) -> (String, usize, bool) {
             nh_inline = None;
             // hop-by-hop options whose length makes a whole number of 8-octet units with the 2-octet header
             // (anything else is rejected by the IPv6 layer, which is not this property's subject)
-            let eid = 0u8;
+            // ... and, with the same PadN body, every other extension header id LOWPAN_NHC can name: routing (1),
+            // fragment (2), destination options (3), mobility (4) and "IPv6 header" (7) -- the last two decompress
+            // to next header 0
+            let eid = *rng.pick(&[0u8, 0, 1, 2, 3, 4, 7]);
             has_ext = true;
             let elen = *rng.pick(&[6u8, 6, 14]);
             let udp_compressed = rng.chance(1, 2);
@@ -1535,8 +1549,10 @@ fn gen_recv_op1(rng: &mut Rng, cfg: &E2eCfg) -> (String, usize, bool) {
     pl.extend(body);
     // mutate behind the IPHC header only (addresses stay valid)
     // (and not inside hop-by-hop options: how unknown options are treated is the IPv6 layer's business)
-    if rng.chance(1, 5) && pl.len() > hdr_end && !has_ext {
-        match rng.below(3) {
+    if rng.chance(1, 5) && pl.len() > hdr_end {
+        // (a chain with an extension header is only truncated: decompress_ext_hdr / decompress_udp then fail,
+        // or the UDP payload gets shorter; its option octets are never altered)
+        match if has_ext { 0 } else { rng.below(3) } {
             0 => {
                 let n = hdr_end + rng.below((pl.len() - hdr_end) as u64) as usize;
                 pl.truncate(n);
@@ -1557,6 +1573,14 @@ fn gen_recv_op1(rng: &mut Rng, cfg: &E2eCfg) -> (String, usize, bool) {
     let out = match rng.below(10) {
         0 | 1 => {
             let mut f = vec![0xc0 | (unc >> 8) as u8, unc as u8, 0x77, rng.next() as u8];
+            f.extend(pl);
+            f
+        }
+        3 if unc > 48 => {
+            // a datagram size too small for the decompressed headers: the room checks of decompress_ext_hdr /
+            // decompress_udp and the `total_len` consistency check fail
+            let sz = *rng.pick(&[40usize, 41, 44, 47, 48, 49, 56]);
+            let mut f = vec![0xc0 | ((sz >> 8) as u8 & 7), sz as u8, 0x79, rng.next() as u8];
             f.extend(pl);
             f
         }
@@ -2053,7 +2077,7 @@ fn seed_frames(rng: &mut Rng) -> Vec<u8> {
     let mut f = mac.clone();
     // force both link-layer addresses to the fixed receiver / sender of inject_case
     f[12..20].copy_from_slice(&[0x01, 0, 0, 0, 0, 0, 0, 0x02]);
-    let body: Vec<u8> = match rng.below(6) {
+    let body: Vec<u8> = match rng.below(8) {
         0 => {
             // FRAG1 + IPHC(nh compressed) + NHC-UDP, datagram_size around the header sizes
             let size = *rng.pick(&[40u16, 41, 47, 48, 49, 55, 56, 100]);
@@ -2102,10 +2126,62 @@ fn seed_frames(rng: &mut Rng) -> Vec<u8> {
             b.extend(rb(rng, 0, 60));
             b
         }
+        5 | 6 => {
+            // a well-formed chain IPHC + NHC extension header (any id: hop-by-hop, routing, fragment, destination
+            // options, mobility, reserved, "IPv6 header") with a PadN body + NHC-UDP or an in-line UDP header
+            // (mutated / truncated afterwards like every other seed), sometimes inside a FRAG1 of a tiny datagram
+            let eid = rng.next() as u8 & 7;
+            let elen = *rng.pick(&[6u8, 6, 14, 0]);
+            let compressed = rng.chance(1, 2);
+            let mut b = vec![0x7e, 0x33, 0xe0 | (eid << 1) | compressed as u8];
+            if !compressed {
+                b.push(17);
+            }
+            b.push(elen);
+            let mut opt = vec![0u8; elen as usize];
+            if elen >= 2 {
+                opt[0] = 1;
+                opt[1] = elen - 2;
+            }
+            b.extend(opt);
+            if compressed {
+                b.extend([0xf0, 0x12, 0x34, 0x00, 0x35, 0xab, 0xcd]);
+            } else {
+                b.extend([0x12, 0x34, 0x00, 0x35, 0x00, 0x0b, 0xab, 0xcd]);
+            }
+            b.extend(rb(rng, 0, 5));
+            if rng.chance(1, 3) {
+                let size = *rng.pick(&[40u16, 44, 48, 49, 56, 64]);
+                let mut w = vec![0xc0 | (size >> 8) as u8, size as u8, 2, rng.next() as u8];
+                w.extend(b);
+                b = w;
+            }
+            b
+        }
         _ => rb(rng, 0, 40),
     };
     f.extend(body);
     f
+}
+
+/// a valid unfragmented UDP datagram fe80::1 -> the receiver of inject_case (port 53), 6LoWPAN-compressed
+fn inject_probe_frame(ll: Ieee802154Address) -> Vec<u8> {
+    let src_ll = Ieee802154Address::Extended([0x02, 0, 0, 0, 0, 0, 0, 0x01]);
+    let (src, dst) = (ll_link_local(&src_ll), ll_link_local(&ll));
+    let data = b"still there?";
+    let mut u = vec![0u8; 8 + data.len()];
+    UdpRepr { src_port: 4660, dst_port: 53 }.emit(
+        &mut UdpPacket::new_unchecked(&mut u[..]),
+        &IpAddress::Ipv6(src),
+        &IpAddress::Ipv6(dst),
+        data.len(),
+        |x| x.copy_from_slice(data),
+        &ChecksumCapabilities::default(),
+    );
+    // IPHC: TF elided, next header in-line (17), hop limit 64, both addresses derived from the link-layer ones
+    let mut pl = vec![0x7a, 0x33, 17];
+    pl.extend(u);
+    mk_frame(src_ll, ll, 0x77, &pl)
 }
 
 fn gen_inject_case(rng: &mut Rng, id: String, tier: &str) -> Case {
